@@ -91,3 +91,5 @@ def run(ctx):
     cmp_fn(ctx, 'nopadding.remove', PAD, 'nopadding.remove', P.NOPAD_REMOVE)
     cmp_fn(ctx, 'blockiterator.iterblocks', PAD, 'blockiterator.iterblocks', H.ITERBLOCKS)
     cmp_fn(ctx, 'blockiterator.reset', PAD, 'blockiterator.reset', H.BLOCKITERATOR_RESET)
+
+    dependencies(ctx, ['crysp/bits.py', 'crysp/mode.py', 'crysp/padding.py'], 'C05')
